@@ -127,6 +127,8 @@ func registerVrt(m *Machine) {
 		m.mapOrderNondet = m.ctxBool(args[0])
 		return nil
 	}
+	m.natives[vrtPkg+"Jitter"] = func(m *Machine, args []Value) Value { return nil }
+	m.natives[vrtPkg+"SetJitter"] = func(m *Machine, args []Value) Value { return nil }
 	m.natives[vrtPkg+"LiveTasks"] = func(m *Machine, args []Value) Value {
 		return m.i64(int64(m.liveTasks()))
 	}
